@@ -30,6 +30,8 @@ class C15(core.Check):
             {'k': 'file', 'p': [[10, 'PRINT "A' + chr(26) + 'B"'], [20, 'REM ' + 'x' * 230]]},
             {'k': 'file', 'p': []},
             {'k': 'file', 'p': [[65529, 'END']]},
+            {'k': 'file', 'p': self.with_long_line([[10, 'PRINT 1']], 255, None)},
+            {'k': 'file', 'p': self.with_long_line([[10, 'PRINT 1']], 254, None)},
         ] + [{'k': 'file', 'p': self.pad_to_block([[10, 'A%=1234:PRINT "hello"'], [30, 'GOTO 10']], t)} for t in (255, 256, 257, 512)]
 
     def gen_cases(self, n):
@@ -42,7 +44,10 @@ class C15(core.Check):
                 hist['cipher'] += 1
             else:
                 prog = [list(x) for x in progen.program(rng)]
-                if rng.random() < 0.5:
+                if rng.random() < 0.3:
+                    prog = self.with_long_line(prog, rng.choice([253, 254, 255]), rng)
+                    hist['long_listed_line'] = hist.get('long_listed_line', 0) + 1
+                elif rng.random() < 0.5:
                     prog = self.pad_to_block(prog, rng.choice([255, 256, 257, 511, 512, 513]))
                     hist['block_boundary'] = hist.get('block_boundary', 0) + 1
                 out.append({'k': 'file', 'p': prog})
@@ -56,6 +61,17 @@ class C15(core.Check):
             hist['exhaustive_position_byte_pairs'] = 143 * 256
         self.histogram = hist
         return out
+
+    def with_long_line(self, prog, width, rng):
+        """insert (not as last line) a line whose LISTed text is exactly `width` characters: the ASCII format
+        writes it as a full-width record, which the reader returns with the CR still pending"""
+        prog = [x for x in prog if x[0] not in (30000, 65000)][:5]
+        prog.append([65000, 'PRINT "tail"'])
+        num = 30000
+        head = '%d REM ' % num
+        prog.append([num, 'REM ' + 'y' * (width - len(head))])
+        prog.sort()
+        return prog
 
     def pad_to_block(self, prog, target):
         """append/adjust a REM line so that the saved image (program memory minus the leading NUL) has
@@ -108,6 +124,10 @@ class C15(core.Check):
                         l2 = s2.execute('LIST') if nm != 'TP' else None
                         loaded[nm] = (bytes(s2._impl.program.bytecode.getvalue()), l2,
                                       bool(s2._impl.program.protected))
+            with common.new_session(devices={'C': d}, current_device='C:') as s5:
+                with core.time_limit(60):
+                    s5.execute('MERGE "TA"')
+                    loaded['MERGE'] = bytes(s5._impl.program.bytecode.getvalue())
             # cassette device: SAVE / LOAD through a CAS image (B, P and A formats), fresh session for LOAD
             tape = os.path.join(d, 'tape.cas')
             open(tape, 'wb').close()
@@ -207,6 +227,11 @@ class C15(core.Check):
             c4 = bytes(s3._impl.program.bytecode.getvalue())
         if c4[:self.prog_end(c4)] == code[:prog_end] and c3[:self.prog_end(c3)] != code[:prog_end]:
             return 'ASCII SAVE/LOAD changed a program whose listing re-enters identically'
+        if c4[:self.prog_end(c4)] == code[:prog_end] and l3 != listing:
+            return 'LIST after ASCII SAVE/LOAD differs from the original listing although the listing re-enters as the same program'
+        cm = loaded.get('MERGE')
+        if cm is not None and c4[:self.prog_end(c4)] == code[:prog_end] and cm[:self.prog_end(cm)] != code[:prog_end]:
+            return 'MERGE of the ASCII file into an empty program does not restore a program whose listing re-enters identically'
         return None
 
     @staticmethod
